@@ -6,7 +6,10 @@
 (* silently ignored" -- however the argument is passed).                    *)
 (* A signature is a sequence of [name, hasDefault]; a call binds the first  *)
 (* Len(pos) parameters positionally and some others by keyword; each bound  *)
-(* value is "default" or "other".                                           *)
+(* value is "default", "other" (a non-default value that is truthy) or      *)
+(* "falsy" (a non-default value that is None / False / 0 / empty: e.g.      *)
+(* size_average=False where the default is None, alpha=0 where it is 1).    *)
+(* A falsy value is a request like any other: it is not "switched off".     *)
 (***************************************************************************)
 EXTENDS Integers, Sequences, FiniteSets, TLC
 CONSTANT Legacy
@@ -19,9 +22,9 @@ Bound(sig, pos, kw) == [n \in {sig[k].name : k \in 1 .. Len(pos)} \cup DOMAIN kw
                           IF \E k \in 1 .. Len(pos) : sig[k].name = n THEN pos[CHOOSE k \in 1 .. Len(pos) : sig[k].name = n] ELSE kw[n]]
 Rejects(sig, unsupported, pos, kw) ==
   LET b == IF "keywords_only" \in Legacy THEN kw ELSE Bound(sig, pos, kw)
-  IN \E n \in DOMAIN b : n \in unsupported /\ b[n] = "other"
+  IN \E n \in DOMAIN b : n \in unsupported /\ (IF "falsy_is_off" \in Legacy THEN b[n] = "other" ELSE b[n] # "default")
 \* what the property demands: rejected iff some unsupported parameter receives a non-default value, by position or by keyword
 MustReject(sig, unsupported, pos, kw) ==
-  \/ \E k \in 1 .. Len(pos) : sig[k].name \in unsupported /\ pos[k] = "other"
-  \/ \E n \in DOMAIN kw : n \in unsupported /\ kw[n] = "other"
+  \/ \E k \in 1 .. Len(pos) : sig[k].name \in unsupported /\ pos[k] # "default"
+  \/ \E n \in DOMAIN kw : n \in unsupported /\ kw[n] # "default"
 =============================================================================
